@@ -26,7 +26,7 @@ RULE = (
     "In 40% of the runs the producer polls Job.result of every job every 0.2 s while the chains run. "
     "Oracle: Job.result == outcome of the latest finished execution (success flag, encoded value or exception text and type "
     "name, started <= finished, ttl); nothing written when disabled; under a store fault every message's final place equals "
-    "the fault-free twin's, no second terminal action follows the failed store, the worker finishes its other jobs. non-trivial = a "
+    "the fault-free twin's, no second terminal action follows the failed store, the worker finishes its other jobs. Also: application object created with update_config=True (15%). non-trivial = a "
     "result was stored and compared (fault runs: the fault fired); distinct = interleaving digest."
 )
 SHRINK_LISTS = ("jobs",)
@@ -73,6 +73,8 @@ def gen(rng, broker, tier):
                  "nth": rng.randint(1, 6), "offset": rng.randint(0, 12), "delay_us": rng.choice([20_000, 200_000, 2_000_000])}
     return {"jobs": jobs, "tasks_limit": rng.randint(1, 3), "fault": fault, "policy_us": rng.choice([50_000, 50_000, 0]),
             "poll": rng.random() < 0.4,
+            # the application object is created with update_config=True (brokers re-read their classes from Config)
+            "update_config": rng.random() < 0.15,
             "knobs": {"step_cost": rng.choice([0, 0, 1, "rand"]),
                       "net": {"lat_lo": 50, "lat_hi": rng.choice([300, 3000]), "frag_p": rng.choice([0, 0.2])}}}
 
@@ -108,6 +110,10 @@ async def _main(sim, sc, out):
     b = sc["broker"]
     world = await World(sim, b, nodes=("w", "p"), buckets="redis" if b == "redis" else "mem", knobs=sc.get("knobs")).setup()
     connw, connp = world.conn("w"), world.conn("p")
+    if sc.get("update_config"):
+        for c_ in (connw, connp):
+            r.Repid(c_, update_config=True)
+        probe(out, "application-created-with-update_config")
     jobs = {j["id"]: j for j in sc["jobs"]}
     state = workload.ActorState(world, jobs)
     router = workload.build_router(state, [
